@@ -3,6 +3,8 @@ package main
 import (
 	"bytes"
 	"fmt"
+	"sort"
+	"strings"
 
 	clover "github.com/ostafen/clover/v2"
 )
@@ -106,6 +108,7 @@ func cmpDomain(vs ...interface{}) bool {
 func streamC10(c *Ctx) {
 	c.Rule = "pairs and triples over the boundary value set (ints incl. extremes, uint64, floats incl. ±0/±Inf/subnormal, strings with 0x00/0xFF, times 1678-2262, nested arrays/objects) plus random values; " +
 		"each pair: sign(Compare) impl vs Lean goCmp, antisymmetry on impl, key bytes impl vs Lean, key order vs Compare on the key domain; triples: transitivity on impl. " +
+		"then, through a real index on both backends and collection/field names of several lengths: stored keys = prefix + hook key + id, index-ordered reads in Compare order, two-sided windows return exactly Compare's window. " +
 		"non-trivial = distinct (canonical a, canonical b) with a != b textually"
 	g := NewGen(c.Rng, Domain{})
 	dr := StartDriver(c.DriverBin)
@@ -207,4 +210,142 @@ func streamC10(c *Ctx) {
 		}
 	}
 	c.Sample(J{"triple": []interface{}{encValue(pool[1]), encValue(pool[40]), encValue(pool[80])}})
+	c10ThroughIndex(c, g)
+}
+
+// c10ThroughIndex: the keys the index package really writes, observed in a real store.  For collection / field names of
+// several lengths (key buffers are sized by them) an index is filled with the atoms of the key domain, then
+//
+//	(1) every stored key ends in the hook's key bytes of the value followed by the document id,
+//	(2) an index-ordered read (sort on the indexed field) returns the documents in Compare order, ids breaking ties,
+//	(3) two-sided windows a <= x <= b (and the strict forms) through the index return exactly the documents whose value
+//	    Compare places in the window - both bounds' keys are built for the same scan.
+func c10ThroughIndex(c *Ctx, g *Gen) {
+	atoms := []interface{}{}
+	for _, v := range g.atoms {
+		if s, isStr := v.(string); isStr && strings.HasPrefix(s, "$") {
+			continue // as a literal it would be read as a field reference
+		}
+		if v != nil && c10KeyDomain(v) && !hasBigInt(v) {
+			atoms = append(atoms, v)
+		}
+	}
+	names := [][2]string{{"c", "x"}, {"measurements", "temperature"}, {strings.Repeat("k", 21), "vals"}}
+	for i := 0; i < c.N(3, 20); i++ {
+		names = append(names, [2]string{strings.Repeat("n", 1+g.pick(70)), strings.Repeat("f", 1+g.pick(40))})
+	}
+	for bi, be := range backendsAll {
+		im := NewImpl(be, c.Scratch)
+		for ni, nm := range names {
+			if c.Quick() && ni%2 != bi%2 && ni > 2 {
+				continue
+			}
+			coll, field := nm[0], nm[1]
+			im.Reset()
+			im.Exec(opLine("createCollection", J{"coll": hx(coll)}), -1, false)
+			im.Exec(opLine("createIndex", J{"coll": hx(coll), "field": hx(field)}), -1, false)
+			docs := []interface{}{}
+			valOf := map[string]interface{}{}
+			for j, v := range atoms {
+				id := fixedId(j + 1)
+				valOf[hx(id)] = v
+				docs = append(docs, encDoc(map[string]interface{}{"_id": id, field: v}))
+			}
+			if r := im.Exec(opLine("insert", J{"coll": hx(coll), "docs": docs}), -1, false); r.Line != "ok unit" {
+				c.Violation(&Replay{Backend: be, Stream: "index-keys", Case: []interface{}{J{"coll": coll, "field": field}}, Actual: []string{r.Line}, Note: "inserting the boundary atoms into an indexed collection failed"})
+				im.Destroy()
+				return
+			}
+			desc := J{"k": "index-keys", "backend": be, "collection": coll, "field": field, "values": len(atoms)}
+			// (1) stored keys
+			prefix := "c:" + coll + ";i:" + field + ";"
+			want := map[string]bool{}
+			for j, v := range atoms {
+				k, _ := implKey(v)
+				want[prefix+k+fixedId(j+1)] = true
+			}
+			found := 0
+			for _, k := range im.RawKeys() {
+				if strings.HasPrefix(k, prefix) {
+					if !want[k] {
+						c.Violation(&Replay{Backend: be, Stream: "index-keys", Case: []interface{}{desc}, Actual: []string{hx(k)}, Note: "the index holds a key that is not <prefix><type><ordered code of the value><id> of any document"})
+						im.Destroy()
+						return
+					}
+					found++
+				}
+			}
+			if found != len(atoms) {
+				c.Violation(&Replay{Backend: be, Stream: "index-keys", Case: []interface{}{desc}, Expected: []string{fmt.Sprint(len(atoms))}, Actual: []string{fmt.Sprint(found)}, Note: "number of index entries"})
+				im.Destroy()
+				return
+			}
+			idsOf := func(line string) ([]string, bool) {
+				ds, ok := splitDocs(line)
+				if !ok {
+					return nil, false
+				}
+				out := []string{}
+				for _, d := range ds {
+					out = append(out, topId(d))
+				}
+				return out, true
+			}
+			// (2) index order = Compare order
+			for _, dir := range []int{1, -1} {
+				r := im.Exec(opLine("findAll", J{"q": J{"coll": hx(coll), "sort": []interface{}{[]interface{}{hx(field), dir}}}}), -1, false)
+				ids, ok := idsOf(r.Line)
+				c.Evals++
+				if !ok || len(ids) != len(atoms) {
+					c.Violation(&Replay{Backend: be, Stream: "index-keys", Case: []interface{}{desc}, Actual: []string{r.Line[:min(200, len(r.Line))]}, Note: "an index-ordered read does not return every document"})
+					im.Destroy()
+					return
+				}
+				for k := 0; k+1 < len(ids); k++ {
+					cmp := clover.VerifCompare(valOf[ids[k]], valOf[ids[k+1]]) * dir
+					if cmp > 0 || (cmp == 0 && (ids[k] < ids[k+1]) != (dir > 0)) {
+						c.Violation(&Replay{Backend: be, Stream: "index-keys", Case: []interface{}{desc, J{"a": encValue(valOf[ids[k]]), "b": encValue(valOf[ids[k+1]]), "direction": dir}},
+							Note: "an index-ordered read returns two documents against the order of Compare (ids breaking ties)"})
+						im.Destroy()
+						return
+					}
+				}
+			}
+			// (3) two-sided windows
+			for t := 0; t < c.N(400, 4000); t++ {
+				a, b := atoms[g.pick(len(atoms))], atoms[g.pick(len(atoms))]
+				if clover.VerifTypeId(a) != clover.VerifTypeId(b) {
+					continue // windows within one type (mixed-type bounds are the planner's business: C02)
+				}
+				if clover.VerifCompare(a, b) > 0 {
+					a, b = b, a
+				}
+				lo, hi := []string{"ge", "gt"}[g.pick(2)], []string{"le", "lt"}[g.pick(2)]
+				q := J{"coll": hx(coll), "crit": J{"and": []interface{}{J{"cmp": []interface{}{lo, hx(field), J{"lit": encValue(a)}}}, J{"cmp": []interface{}{hi, hx(field), J{"lit": encValue(b)}}}}}}
+				r := im.Exec(opLine("findAll", J{"q": q}), -1, false)
+				ids, ok := idsOf(r.Line)
+				c.Evals++
+				exp := []string{}
+				for j, v := range atoms {
+					ca, cb := clover.VerifCompare(v, a), clover.VerifCompare(v, b)
+					if (ca > 0 || (ca == 0 && lo == "ge")) && (cb < 0 || (cb == 0 && hi == "le")) {
+						exp = append(exp, hx(fixedId(j+1)))
+					}
+				}
+				if len(exp) > 0 {
+					c.NonTrivial(fmt.Sprint("window", be, ni, canonValue(a), canonValue(b), lo, hi))
+				}
+				sort.Strings(ids)
+				sort.Strings(exp)
+				if !ok || strings.Join(ids, ",") != strings.Join(exp, ",") {
+					c.Violation(&Replay{Backend: be, Stream: "index-keys", Case: []interface{}{desc, opLine("findAll", J{"q": q})}, Expected: []string{fmt.Sprint(len(exp), " documents: ", strings.Join(exp, ","))},
+						Actual: []string{fmt.Sprint(len(ids), " documents: ", strings.Join(ids, ","))}, Note: "a two-sided window through the index does not return exactly the documents whose value Compare places in it"})
+					im.Destroy()
+					return
+				}
+			}
+			c.Count("index-keys:" + be)
+		}
+		im.Destroy()
+	}
 }
